@@ -33,7 +33,8 @@ STUBS = ["Circuit.sblock_queue = stub whose get() yields IDLE when empty; _simul
 ASSUMPTIONS = ["truthiness of an integer input = (value != 0)"]
 EXPECT_LABELS = {'all': ['idle-consistent', 'initial-consistent', 'wait-init-consistent', 'compare-hysteresis',
                          'feedback-settled']}
-EXPECT_NOTES = {'all': ['burst-multi', 'burst-empty', 'feedback-changed-sblock', 'compare-in-band']}
+EXPECT_NOTES = {'all': ['burst-multi', 'burst-empty', 'feedback-changed-sblock', 'compare-in-band',
+                        'sender-got-unknown-event']}
 FLOORS = {'quick': {'paths': 2000, 'checks': 5000}, 'thorough': {'paths': 20000, 'checks': 50000}}
 
 
@@ -63,8 +64,33 @@ FUNCS = {
 }
 
 
-def build_circuit(drv, inputs, blocks, feedback=None):
-    ins = [edzed.Input(f'i{k}', initdef=v) for k, v in enumerate(inputs)]
+class Picky(edzed.SBlock):
+    """destination that knows the event 'ok' only; once strict, any other event type is an unknown event -
+    the one error edzed reports to the sender without stopping the simulation (docs/events.rst)"""
+    strict = False
+
+    def init_regular(self):
+        self.set_output(0)
+
+    def _event_ok(self, **data):
+        return True
+
+    def _event(self, etype, data):
+        if self.strict:
+            return super()._event(etype, data)
+        return None
+
+
+def build_circuit(drv, inputs, blocks, feedback=None, picky_input=None):
+    ins = []
+    for k, v in enumerate(inputs):
+        kw = {}
+        if k == picky_input:
+            # every output change of this input is also sent to a block that rejects the event type chosen
+            # for falsy values: the sender of the 'put' gets EdzedUnknownEvent, the simulation goes on
+            Picky('picky')
+            kw['on_output'] = edzed.Event('picky', edzed.EventCond('ok', 'bogus'))
+        ins.append(edzed.Input(f'i{k}', initdef=v, **kw))
     cbs = []
     for j, b in enumerate(blocks):
         t = b[0]
@@ -198,10 +224,10 @@ def check_idle(env, label, blocks, ins, cbs, prev_compare):
                 env.note('compare-in-band')
 
 
-def scen_net(env, blocks, ninputs, nburst, feedback=None, first_target=None):
+def scen_net(env, blocks, ninputs, nburst, feedback=None, first_target=None, picky_input=None):
     drv = Driver()
     vals = [env.int(f'i{k}_init') for k in range(ninputs)]
-    ins, cbs = build_circuit(drv, vals, blocks, feedback)
+    ins, cbs = build_circuit(drv, vals, blocks, feedback, picky_input)
     try:
         drv.start()
     except Exception as err:
@@ -213,6 +239,8 @@ def scen_net(env, blocks, ninputs, nburst, feedback=None, first_target=None):
         return
     prev_cmp = {}
     check_idle(env, 'initial-consistent', blocks, ins, cbs, prev_cmp)
+    if picky_input is not None:
+        drv.circ.findblock('picky').strict = True
     for rnd in range(2 if any(b[0] == 'compare' for b in blocks) else 1):
         prev_cmp = {j: cbs[j].output for j, b in enumerate(blocks) if b[0] == 'compare'}
         n = env.choose(nburst + 1, f'burst_len{rnd}') if not (first_target is not None and rnd == 0) else \
@@ -227,7 +255,13 @@ def scen_net(env, blocks, ninputs, nburst, feedback=None, first_target=None):
             else:
                 k = targets[env.choose(len(targets), f'burst{rnd}_{i}_target')]
             v = env.int(f'burst{rnd}_{i}_value')
-            ins[k].event('put', value=v)
+            try:
+                ins[k].event('put', value=v)
+            except edzed.EdzedUnknownEvent:
+                # reported to the sender; "does not stop the simulation" - the change of the input itself happened
+                env.check('unknown-event-only-from-picky', k == picky_input)
+                env.note('sender-got-unknown-event')
+                env.check('no-error', drv.circ.error is None, info=lambda: drv.circ.error)
         before = [i.output for i in ins]
         cj_before = cbs[feedback[0]].output if feedback else None
         err = drv.run_to_idle()
@@ -342,12 +376,12 @@ def scen_family(env, typ, chunk, nchunks, second=None, small=False, nburst=3):
     scen_net(env, blocks, 2, nburst if second is None else 2)
 
 
-def scen_catalog(env, name, nburst=3, first_target=None):
+def scen_catalog(env, name, nburst=3, first_target=None, picky_input=None):
     if name in CATALOG:
-        scen_net(env, CATALOG[name], 3, nburst, first_target=first_target)
+        scen_net(env, CATALOG[name], 3, nburst, first_target=first_target, picky_input=picky_input)
     else:
         blocks, fb = FEEDBACK[name]
-        scen_net(env, blocks, 3, 2, feedback=fb, first_target=first_target)
+        scen_net(env, blocks, 3, 2, feedback=fb, first_target=first_target, picky_input=picky_input)
 
 
 def scen_wait_init(env, name):
@@ -392,6 +426,12 @@ def shards(tier):
         for ft in (0, 1, 2):
             out.append({'name': f'catalog {name} first_target={ft}', 'scenario': 'scen_catalog',
                         'params': {'name': name, 'nburst': 1 if tier == 'quick' else 2, 'first_target': ft}, 'cost': 30})
+    # an output event of input 0 / 1 fails with EdzedUnknownEvent at the sender of the 'put' (no stop): still consistent
+    for name, pk in (('chain', 0), ('diamond', 0), ('fb-and', 0)) if tier == 'quick' else \
+            [(n, k) for n in list(CATALOG) + list(FEEDBACK) for k in (0, 1)]:
+        out.append({'name': f'catalog {name} unknown event behind input {pk}', 'scenario': 'scen_catalog',
+                    'params': {'name': name, 'nburst': 1 if tier == 'quick' else 2, 'picky_input': pk, 'first_target': pk},
+                    'cost': 30})
     for name in CATALOG:
         out.append({'name': f'wait_init {name}', 'scenario': 'scen_wait_init', 'params': {'name': name}})
     if tier == 'thorough':
